@@ -5,4 +5,5 @@ INVARIANT TableOk
 INVARIANT OperandInv
 INVARIANT CallInv
 INVARIANT ParInv
+INVARIANT InPlaceInv
 CHECK_DEADLOCK FALSE
